@@ -279,7 +279,7 @@ func (t *termer) allocTerm(a *ssa.Alloc, load ssa.Instruction) string {
 					ws = append(ws, writer{x, func() string { return "X25519(" + t.Term(cm.Args[1]) + "," + t.Term(cm.Args[2]) + ")" }})
 				case (id == "golang.org/x/crypto/curve25519.ScalarBaseMult") && cm.Args[0] == v:
 					ws = append(ws, writer{x, func() string { return "X25519base(" + t.Term(cm.Args[1]) + ")" }})
-				case id == "io.ReadFull" && len(cm.Args) == 2 && cm.Args[1] == v:
+				case (id == "io.ReadFull" || id == "io.ReadAtLeast") && t.p.isReadFull(x) && cm.Args[1] == v:
 					ws = append(ws, writer{x, func() string { return "read(" + t.Term(cm.Args[0]) + ")" }})
 				case id == M("$M/common/csrand.Bytes") && cm.Args[0] == v:
 					ws = append(ws, writer{x, func() string { return "random" }})
@@ -384,6 +384,8 @@ func (t *termer) accumContent(read ssa.CallInstruction) string {
 	}
 	for _, op := range ops {
 		switch {
+		case op.Method == "Param":
+			parts = append(parts, t.Term(op.Args[0]))
 		case op.Method == "Init" || accWriteMethods[op.Method]:
 			if len(op.Args) >= 1 {
 				saved := t.at
@@ -445,10 +447,20 @@ func (t *termer) callTerm(c *ssa.Call, idx int) string {
 			h = strings.TrimSuffix(strings.TrimPrefix(p.fnID(f), "crypto/"), ".New")
 		}
 		return "hkdf-" + h + "[ikm=" + t.Term(cm.Args[1]) + ";salt=" + t.Term(cm.Args[2]) + ";info=" + t.Term(cm.Args[3]) + "]"
+	case "golang.org/x/crypto/hkdf.Extract":
+		h := "?"
+		if f, ok := cm.Args[0].(*ssa.Function); ok {
+			h = strings.TrimSuffix(strings.TrimPrefix(p.fnID(f), "crypto/"), ".New")
+		}
+		return "hkdf-extract-" + h + "[ikm=" + t.Term(cm.Args[1]) + ";salt=" + t.Term(cm.Args[2]) + "]"
 	case "golang.org/x/crypto/hkdf.Expand":
 		h := "?"
 		if f, ok := cm.Args[0].(*ssa.Function); ok {
 			h = strings.TrimSuffix(strings.TrimPrefix(p.fnID(f), "crypto/"), ".New")
+		}
+		// Expand(h, Extract(h, ikm, salt), info) is what hkdf.New(h, ikm, salt, info) does
+		if ec, _ := callOf(unspill(cm.Args[1])); ec != nil && p.CalleeID(ec.Common()) == "golang.org/x/crypto/hkdf.Extract" && ec.Common().Args[0] == cm.Args[0] {
+			return "hkdf-" + h + "[ikm=" + t.Term(ec.Common().Args[1]) + ";salt=" + t.Term(ec.Common().Args[2]) + ";info=" + t.Term(cm.Args[2]) + "]"
 		}
 		return "hkdf-expand-" + h + "[prk=" + t.Term(cm.Args[1]) + ";info=" + t.Term(cm.Args[2]) + "]"
 	case "crypto/aes.NewCipher":
@@ -569,6 +581,11 @@ func (t *termer) filledBy(ms *ssa.MakeSlice) string {
 		switch t.p.CalleeID(cm) {
 		case "io.ReadFull":
 			if cm.Args[1] == ssa.Value(ms) {
+				parts = append(parts, "read("+t.Term(cm.Args[0])+","+t.scalar(ms.Len)+")")
+			}
+		case "io.ReadAtLeast":
+			// ReadAtLeast(r, buf, len(buf)) is ReadFull(r, buf)
+			if cm.Args[1] == ssa.Value(ms) && t.scalar(cm.Args[2]) == t.scalar(ms.Len) {
 				parts = append(parts, "read("+t.Term(cm.Args[0])+","+t.scalar(ms.Len)+")")
 			}
 		case "builtin:copy":
